@@ -40,7 +40,9 @@ THEOREMS = ['C05_rest_isothermal_steady', 'C05_primeq_column_refines_spec', 'C05
             'C05_hyps_satisfiable', 'C05_modal_hyps_satisfiable', 'C05_rest_moist_hyps_satisfiable',
             'C05_model_is_source', 'C05_gen_primeq_complete',
             'C05_whole_state_rest_isothermal_steady', 'C05_whole_state_rest_hyps_satisfiable',
-            'C05_sw_model_refines_spec', 'C05_sw_model_jet_steady_partial', 'C05_sw_model_hyps_satisfiable']
+            'C05_sw_model_refines_spec', 'C05_sw_model_jet_steady_partial', 'C05_sw_model_hyps_satisfiable',
+            'C05_sw_concrete_refines_spec', 'C05_sw_concrete_hyps_satisfiable',
+            'C05_whole_state_rest_isothermal_steady_moist', 'C05_whole_state_rest_moist_hyps_satisfiable']
 LEVEL = 'proof'
 LEVEL_TEXT = ('machine-checked theorems (Coq), every field, every layer count, every level set: the nodal column algebra of '
               'the implementation (explicit + implicit) equals the documented vertical discretisation of the continuous '
